@@ -18,6 +18,7 @@ import (
 	"runtime/debug"
 	"slices"
 	"strings"
+	"sync/atomic"
 	"testing"
 	"testing/synctest"
 	"time"
@@ -228,13 +229,8 @@ func (b *c12Block) exec(f []string) (out []string) {
 		peer, mask := vutil.Atoi(f[1]), vutil.Atoi(f[3])
 		h := [4]int{vutil.Atoi(f[4]), vutil.Atoi(f[5]), vutil.Atoi(f[6]), vutil.Atoi(f[7])}
 		good, user, slot := f[10] == "1", vutil.Atoi(f[11]), vutil.Atoi(f[12])
-		pass := fmt.Sprintf("pass%d", user)
-		if !good {
-			pass = "wrong"
-		}
-		r := c12Request(fmt.Sprintf(`{"name":"u%d","password":%q}`, user, pass), peer, mask, h)
 		w := httptest.NewRecorder()
-		handleLogin(w, r)
+		globalContext.mux.ServeHTTP(w, c12LoginRequest(peer, mask, h, user, good))
 		res := w.Result()
 		retry, tok := "-", "-"
 		if v := res.Header.Get("Retry-After"); v != "" {
@@ -266,6 +262,49 @@ func (b *c12Block) exec(f []string) (out []string) {
 		handleLogout(httptest.NewRecorder(), r)
 
 		return append([]string{"ok"}, b.dump()...)
+	case "C12.loginlock":
+		// fact: is controlLock held while the registered login handler
+		// evaluates the password?  (findUser needs a.lock, held here)
+		a := globalContext.auth
+		a.lock.Lock()
+		done := make(chan struct{})
+		go func() {
+			defer close(done)
+			globalContext.mux.ServeHTTP(httptest.NewRecorder(), c12LoginRequest(0, 0, [4]int{}, 0, false))
+		}()
+		buf := make([]byte, 1<<20)
+		parked := false
+		for i := 0; i < 200000 && !parked; i++ {
+			runtime.Gosched()
+			parked = i%8 == 7 && c12Parked(buf, "home.(*Auth).findUser") > 0
+		}
+		fact := "unknown"
+		if parked {
+			fact = "held"
+			if globalContext.controlLock.TryLock() {
+				globalContext.controlLock.Unlock()
+				fact = "free"
+			}
+		}
+		a.lock.Unlock()
+		<-done
+
+		return []string{fact}
+	case "C12.burst":
+		codes := c12Burst(vutil.Atoi(f[1]), vutil.Atoi(f[3]))
+		n403, n429, other := 0, 0, 0
+		for _, c := range codes {
+			switch c {
+			case http.StatusForbidden:
+				n403++
+			case http.StatusTooManyRequests:
+				n429++
+			default:
+				other++
+			}
+		}
+
+		return append([]string{vutil.Itoa(n403), vutil.Itoa(n429), vutil.Itoa(other)}, b.dump()...)
 	case "C12.logoutrace":
 		// A logout and a request with the same cookie overlap: the harness
 		// holds bbolt's single writer, so the logout parks inside
@@ -326,35 +365,87 @@ func (b *c12Block) exec(f []string) (out []string) {
 	}
 }
 
+// c12Parked returns how many goroutines are parked on a mutex with every
+// one of the given substrings in their stack.
+func c12Parked(buf []byte, subs ...string) (n int) {
+	k := runtime.Stack(buf, true)
+	for _, g := range strings.Split(string(buf[:k]), "\n\n") {
+		hdr, _, _ := strings.Cut(g, "\n")
+		if !strings.Contains(hdr, "Mutex.Lock") {
+			continue
+		}
+		ok := true
+		for _, sub := range subs {
+			ok = ok && strings.Contains(g, sub)
+		}
+		if ok {
+			n++
+		}
+	}
+
+	return n
+}
+
 // c12WaitParked spins until done is closed or some goroutine is parked on a
 // mutex below the function fn of package home (i.e. waits for bbolt's writer).
 func c12WaitParked(done chan struct{}, fn string) {
-	i := 0
-	defer func() {
-		if os.Getenv("VERIF_C12_DEBUG") != "" {
-			fmt.Fprintln(os.Stderr, "wait", fn, i)
-		}
-	}()
 	buf := make([]byte, 1<<20)
-	for ; i < 200000; i++ {
+	for i := 0; i < 200000; i++ {
 		select {
 		case <-done:
 			return
 		default:
 		}
 		runtime.Gosched()
-		if i%8 != 7 {
-			continue
-		}
-		n := runtime.Stack(buf, true)
-		for _, g := range strings.Split(string(buf[:n]), "\n\n") {
-			hdr, _, _ := strings.Cut(g, "\n")
-			if strings.Contains(hdr, "Mutex.Lock") && strings.Contains(g, "home.(*Auth)."+fn) &&
-				strings.Contains(g, "beginRWTx") {
-				return
-			}
+		if i%8 == 7 && c12Parked(buf, "home.(*Auth)."+fn, "beginRWTx") > 0 {
+			return
 		}
 	}
+}
+
+// c12LoginRequest is a POST /control/login as a browser sends it.
+func c12LoginRequest(peer, mask int, h [4]int, user int, good bool) (r *http.Request) {
+	pass := fmt.Sprintf("pass%d", user)
+	if !good {
+		pass = "wrong"
+	}
+	r = c12Request(fmt.Sprintf(`{"name":"u%d","password":%q}`, user, pass), peer, mask, h)
+	r.Header.Set(httphdr.ContentType, "application/json")
+
+	return r
+}
+
+// c12Burst posts k wrong passwords from one peer at once through the
+// REGISTERED handler of /control/login.  a.lock is held meanwhile, so every
+// request runs as far as it can (up to findUser, or up to a lock in front of
+// the handler); then a.lock is released.  It returns the status codes.
+func c12Burst(peer, k int) (codes []int) {
+	a := globalContext.auth
+	codes = make([]int, k)
+	var finished atomic.Int32
+	a.lock.Lock()
+	done := make(chan struct{}, k)
+	for i := 0; i < k; i++ {
+		go func() {
+			defer func() { finished.Add(1); done <- struct{}{} }()
+			w := httptest.NewRecorder()
+			globalContext.mux.ServeHTTP(w, c12LoginRequest(peer, 0, [4]int{}, 0, false))
+			codes[i] = w.Code
+		}()
+	}
+	buf := make([]byte, 1<<20)
+	for i := 0; i < 200000; i++ {
+		runtime.Gosched()
+		if i%8 == 7 && c12Parked(buf, "internal/home.") + int(finished.Load()) >= k {
+			break
+		}
+	}
+	a.lock.Unlock()
+	for i := 0; i < k; i++ {
+		<-done
+	}
+
+	return codes
 }
 
 // c12LogoutOrder extracts from the source of removeSession whether the map
@@ -479,6 +570,8 @@ func c12Gen(r *rand.Rand, emit vutil.Emit) {
 	blocks := vutil.N(300)
 	const sec = 1_000_000_000
 	emit("C12.logoutorder")
+	emit("C12.reset", "5", "15", "3600", "0")
+	emit("C12.loginlock")
 	for b := 0; b < blocks; b++ {
 		ma := 1 + r.IntN(5)
 		bm := vutil.Pick(r, []int{1, 1, 2, 15})
@@ -590,6 +683,11 @@ func c12Gen(r *rand.Rand, emit vutil.Emit) {
 		for seg, nseg := 0, 2+r.IntN(6); seg < nseg; seg++ {
 			switch r.IntN(6) {
 			case 0:
+				if r.IntN(3) == 0 {
+					// a burst of simultaneous wrong passwords from one address
+					emit("C12.burst", vutil.Itoa(hot), vutil.Itoa(c12PeerKey(hot)), vutil.Itoa(2+r.IntN(11)))
+					sleep(small())
+				}
 				// brute force: failures in quick succession, then probes
 				// around the end of the block period
 				for i, n := 0, ma+r.IntN(3); i < n; i++ {
@@ -680,6 +778,11 @@ func TestVerifC12(t *testing.T) {
 		}
 		c12Users = append(c12Users, webUser{Name: fmt.Sprintf("u%d", i), PasswordHash: string(h)})
 	}
+	// the registered handlers, as home.go sets them up
+	globalContext.mux = http.NewServeMux()
+	globalContext.web = &webAPI{}
+	globalContext.firstRun = false
+	RegisterAuthHandlers()
 	defer c12EndBlock()
 	vutil.Main(t, c12Gen, c12Run)
 }
